@@ -94,8 +94,9 @@ class TU:
                             callers[fid].append((f, n))
             done = False
             for f in list(self.fns):
-                if f.kind not in ('method', 'operator') or f.body is None:
+                if f.kind not in ('method', 'operator', 'ctor', 'dtor') or f.body is None or f.body_helper is not None:
                     continue
+                body_only = f.kind in ('ctor', 'dtor')      # the helper is the *body*; initialisers and member destruction stay with f
                 st = f.kids(f.body) if f.nodes[f.body]['cls'] == 'CompoundStmt' else []
                 if len(st) != 1:
                     continue
@@ -138,6 +139,8 @@ class TU:
                         d = f.decl(v)
                         if d and d['kind'] == 'parm' and d['id'] in fpar and d['id'] not in seen:
                             seen.append(d['id'])
+                            if body_only:
+                                subst[gp['id']] = (f, a)
                             continue
                     # a member of the object reached by field / dereference steps only, bound to a reference parameter: `*data`, `filterList`
                     gt = self.type(gp['t'])
@@ -147,7 +150,23 @@ class TU:
                         continue
                     ok = False
                     break
-                if not ok or seen != fpar:
+                if not ok or (seen != fpar and not body_only):
+                    continue
+                if body_only:
+                    if not selfs:
+                        continue
+                    g.self_params = selfs
+                    g.param_subst = subst
+                    g.forward_of = f
+                    f.body_helper = g
+                    for nn, oo in g.nodes.items():
+                        if oo['cls'] == 'DeclRefExpr':
+                            dd = g.decl(nn)
+                            if dd and dd.get('kind') == 'parm' and dd.get('id') in selfs:
+                                oo['cls'] = 'CXXThisExpr'
+                                oo['was_self'] = True
+                    self.collapsed.append((f.skey, g.skey, f.where()))
+                    done = True
                     continue
                 if not selfs and not subst:
                     continue      # `this->g(args)`: both names are real member functions; rules follow such helpers themselves
@@ -248,6 +267,8 @@ class Fn:
         self.self_params = set()
         self.param_subst = {}
         self.helper_skey = None
+        self.body_helper = None      # constructor / destructor whose body is one call of a private helper: that helper (facts.TU._collapse_forwarders)
+        self.forward_of = None
 
     # ---- identity -------------------------------------------------------------------
     def locpos(self):
@@ -399,6 +420,17 @@ class Fn:
                 continue
             break
         return n
+
+    def value_alternatives(self, n):
+        """The expressions whose value n can have: n itself, or the arms of a conditional operator `c ? a : b` (nested ones too),
+        each with casts stripped. An arm has its own CFG position inside its branch, so edge-dominance rules written for
+        `if(c) return a; else return b;` apply to `return c ? a : b;` unchanged."""
+        x = self.value_source(n)
+        if self.nodes[x]['cls'] == 'ConditionalOperator':
+            ks = self.kids(x)
+            if len(ks) == 3:
+                return self.value_alternatives(ks[1]) + self.value_alternatives(ks[2])
+        return [x]
 
     def cond_core(self, n):
         """(node, negated): the expression a branch condition really tests - casts stripped, leading `!` peeled, and a local
